@@ -103,7 +103,8 @@ pub struct CaseOut {
     /// the case asserted something on both sides of the property (see each check's rule)
     pub nontrivial: bool,
     pub violations: Vec<Viol>,
-    /// (signature id, what) of known findings this case ran into
+    /// (signature id, what) of known findings this case ran into; a signature id is
+    /// "<property>:<name>" and only the running property's own findings are reported
     pub known: Vec<(String, String)>,
     /// the case written out (only when asked for)
     pub desc: Option<J>,
@@ -239,15 +240,17 @@ where
                 println!("replay {}/{} #{}: case = {}", ctx.prop, spec.name, r.index, co.desc.clone().unwrap_or(J::Null).to_string_pretty());
                 for v in &co.violations {
                     println!("  monitor {} fired: {}", v.tag, v.what);
-                    if v.tag == ctx.prop {
+                    if v.tag == ctx.prop || v.tag == "*" {
                         out.violation_count += 1;
                         out.violations.push(Violation { sub: spec.name.to_string(), index: r.index, what: v.what.clone(), desc: co.desc.clone().unwrap_or(J::Null) });
                     }
                 }
                 for k in &co.known {
                     println!("  known finding {}: {}", k.0, k.1);
-                    let e = out.known_hits.entry(k.0.clone()).or_insert((0, k.1.clone()));
-                    e.0 += 1;
+                    if let Some(sig) = k.0.strip_prefix(&format!("{}:", ctx.prop)) {
+                        let e = out.known_hits.entry(sig.to_string()).or_insert((0, k.1.clone()));
+                        e.0 += 1;
+                    }
                 }
                 if co.violations.is_empty() {
                     println!("  no monitor fired");
@@ -346,11 +349,13 @@ where
                             }
                         }
                         for k in co.known {
-                            let e = known.entry(k.0).or_insert((0, k.1));
-                            e.0 += 1;
+                            if let Some(sig) = k.0.strip_prefix(&format!("{}:", ctx.prop)) {
+                                let e = known.entry(sig.to_string()).or_insert((0, k.1));
+                                e.0 += 1;
+                            }
                         }
                         for v in &co.violations {
-                            if v.tag == ctx.prop {
+                            if v.tag == ctx.prop || v.tag == "*" {
                                 viol_count += 1;
                                 if viols.len() < 5 {
                                     // run the case again to get it written out for the replay file
